@@ -58,6 +58,28 @@ def cases(rng, tier):
 		seed = rng.randrange(2 ** 30)
 		yield ('p', side, tuple(recs), tuple(points), seed)
 
+	# long pipelines (message counts around the numbers a limit or a table size would have) and large bodies / chunks
+	for count in (33, 65, 129, 300) + ((1025,) if tier == 'thorough' else ()):
+		for side in ('server', 'client'):
+			recs = []
+			while len(recs) < count:
+				recs.extend(wire.gen_pipeline(rng, side))
+			recs = recs[:count]
+			total = sum(len(r.wire) for r in recs)
+			yield ('p', side, tuple(recs), tuple(sorted({rng.randrange(0, total + 1) for _ in range(2)} | {total})), rng.randrange(2 ** 30))
+	wire.BIG[0] = True
+	try:
+		big = []
+		for _ in range(12 if tier == 'thorough' else 4):
+			side = rng.choice(('server', 'client'))
+			recs = wire.gen_pipeline(rng, side, maxn=3)
+			total = sum(len(r.wire) for r in recs)
+			big.append(('p', side, tuple(recs), tuple(sorted({rng.randrange(0, total + 1) for _ in range(2)} | {total})), rng.randrange(2 ** 30)))
+	finally:
+		wire.BIG[0] = False
+	for c in big:
+		yield c
+
 
 def search(rng, res):
 	return cases(rng, 'thorough')
